@@ -24,12 +24,15 @@ BASELINE = pathlib.Path(__file__).resolve().parent.parent.parent / "baselines" /
 
 def skip_profile(f: FuncInfo) -> Dict[str, object]:
     parents = S.parents_of(f)
-    prof = {"continue": 0, "break": 0, "return_in_loop": 0, "return": 0, "comp_ifs": 0, "unguarded_recursions": 0, "guards": []}
+    prof = {"continue": 0, "break": 0, "return_in_loop": 0, "return": 0, "comp_ifs": 0, "comp_if_atoms": 0, "unguarded_recursions": 0, "guards": []}
     # filters of comprehensions skip elements just like `continue`; recursive descents (self.visit / self.transform on a child)
     # that are not under any condition are the ones every input reaches
     for n in ast.walk(f.node):
         if isinstance(n, ast.comprehension):
             prof["comp_ifs"] += len(n.ifs)
+            # every conjunct of a filter is one more reason to leave an element out
+            for flt in n.ifs:
+                prof["comp_if_atoms"] += len(flt.values) if isinstance(flt, ast.BoolOp) and isinstance(flt.op, ast.And) else 1
         if isinstance(n, ast.Call) and isinstance(n.func, ast.Attribute) and isinstance(n.func.value, ast.Name) and n.func.value.id == "self" \
                 and n.func.attr in ("visit", "transform") and not S.guards_of(n, parents):
             prof["unguarded_recursions"] += 1
@@ -115,7 +118,7 @@ def check_skips(ctx, f: FuncInfo, rule: str, baseline: Dict[str, Dict[str, objec
         ctx.skip(rule, f, f.node, "function not in the reference of skip statements")
         return
     prof = skip_profile(f)
-    worse = [k for k in ("continue", "break", "return_in_loop", "return", "comp_ifs") if prof[k] > ref.get(k, prof[k] if k in ("return", "comp_ifs") else 0)]
+    worse = [k for k in ("continue", "break", "return_in_loop", "return", "comp_ifs", "comp_if_atoms") if prof[k] > ref.get(k, prof[k] if k in ("return", "comp_ifs", "comp_if_atoms") else 0)]
     if prof["unguarded_recursions"] < ref.get("unguarded_recursions", 0):
         worse.append("fewer unconditional descents into children")
     what = (f"{f.qualname}: {prof['continue']} continue / {prof['break']} break / {prof['return_in_loop']} return-in-loop / {prof['return']} return "
@@ -124,7 +127,7 @@ def check_skips(ctx, f: FuncInfo, rule: str, baseline: Dict[str, Dict[str, objec
         ctx.ok(rule, f, f.node, what=what, nontrivial=(prof["continue"] + prof["break"] + prof["return_in_loop"]) > 0)
         return
     new = [g for g in prof["guards"] if g not in ref.get("guards", [])]
-    what += f"; {prof['comp_ifs']} comprehension filters (reference {ref.get('comp_ifs', '?')}); {prof['unguarded_recursions']} unconditional self.visit/self.transform (reference {ref.get('unguarded_recursions', '?')})"
+    what += f"; {prof['comp_ifs']} comprehension filters with {prof['comp_if_atoms']} conjuncts (reference {ref.get('comp_ifs', '?')} with {ref.get('comp_if_atoms', '?')}); {prof['unguarded_recursions']} unconditional self.visit/self.transform (reference {ref.get('unguarded_recursions', '?')})"
     ctx.fail(rule, f, f.node,
              f"{f.qualname} examines every element of its collections; compared with the reference it has: {'; '.join(worse)} "
              f"({what}). New or changed: {new[:3]}: elements that were examined before are skipped",
